@@ -16,7 +16,7 @@ Ones(n) == [k \in 1 .. n |-> 1]
 Req(m, t, fr, n, cs, tr, e) ==
     [method |-> m, target |-> t, ver |-> "1.1", fields |-> <<HostField, F("x-a", "canon", <<"v1">>)>>,
      framing |-> fr, bodyLen |-> n, chunks |-> cs, hexUpper |-> FALSE, chunkExt |-> FALSE,
-     trailers |-> tr, expect100 |-> e, close |-> FALSE, clStyle |-> "canon", bodyLit |-> ""]
+     trailers |-> tr, expect100 |-> e, close |-> FALSE, clStyle |-> "canon", bodyLit |-> "", raw |-> ""]
 
 Probe == [Req("POST", "/probe?x=1", "cl", 5, << >>, << >>, FALSE) EXCEPT !.fields = <<HostField, F("x-a", "canon", <<"probe">>)>>]
 ProbeChunked == [Req("PUT", "/probe", "chunked", 7, <<3, 4>>, << >>, FALSE) EXCEPT !.fields = <<HostField, F("x-a", "canon", <<"probe">>)>>]
